@@ -2,8 +2,8 @@ import AgModel.Model.PoolTrack
 /-!
 # C08 — pool half: bounds check and `PoolImpl::prune`
 
-Model: `AgModel.PoolTrack` (certificate-only regime), after the `fix:` commits for D12 and the
-`s2n_waiting_parent_cert` leak.
+Model: `AgModel.PoolTrack` (certificate-only regime), after the `fix:` commits for D12, the
+`s2n_waiting_parent_cert` leak and D27 (finality tracker).
 -/
 namespace AgModel.PoolTrack
 open AgModel
@@ -118,6 +118,18 @@ theorem s2n_old_pruned_child_panics :
     (runWith step init
       [.block (2, 9) (1, 1), .cert .final 1 0, .cert .fastFinal 2 8, .cert .fastFinal 3 7, .cert .notar 1 1]).map summary
       = some (3, 3, false, 0) := by
+  decide
+
+/-- D27 at pool level (certificate-only regime): the notarization certificate of `(4,5)`, the block `(8,9)` with parent
+    `(4,4)` and the fast-finalization certificate of `(8,9)`, in both arrival orders of the sibling's certificate:
+    the repaired pool runs through (finality tracker *and* parent-ready tracker) and ends with highest finalized
+    slot 8 and slot 4 `ImplicitlyFinalized(4)`.  (With the pinned finality tracker both orders panicked:
+    `Finality.d27_old_panics`.) -/
+theorem d27_pool_runs :
+    (runWith step init [.cert .notar 4 5, .block (8, 9) (4, 4), .cert .fastFinal 8 9]).map
+        (fun p => (p.fin.highest, p.fin.status 4)) = some (8, some (.implFinalized 4)) ∧
+    (runWith step init [.block (8, 9) (4, 4), .cert .fastFinal 8 9, .cert .notar 4 5]).map
+        (fun p => (p.fin.highest, p.fin.status 4)) = some (8, some (.implFinalized 4)) := by
   decide
 
 end AgModel.PoolTrack
